@@ -15,7 +15,7 @@ struct Spec {
 //                         NAME ATOM TYPE UDT EXPR STMT DECL MEMB DIR FORM ATTR UNIT REGN FILL SUBST HARNESS
 const Spec specs[] = {
    {"all",              {   4,   4,   5,  3,   8,   6,   8,   6,  3,   6,   3,   1,   2,   6,   2,   0},
-    {{"REPEAT", 6}, {"AGAIN", 8}, {"TEMPLATE_FAMILY", 2}, {"LOCATE", 2}, {"JUNK", 1}, {"UNARY", 16}, {"BINARY", 16}, {"DECL", 14}, {"FORM", 14}, {"FORM_FILL", 8}, {"ATTR", 6}, {"TOKEN", 4}}},
+    {{"REPEAT", 6}, {"AGAIN", 8}, {"MEMBER_FLOOD", 1}, {"TEMPLATE_FAMILY", 2}, {"LOCATE", 2}, {"JUNK", 1}, {"UNARY", 16}, {"BINARY", 16}, {"DECL", 14}, {"FORM", 14}, {"FORM_FILL", 8}, {"ATTR", 6}, {"TOKEN", 4}}},
    {"types",            {   1,   0,  20,  1,   0,   0,   0,   0,  0,   0,   0,   0,   0,   0,   0,   0},
     {{"REPEAT", 60}, {"AGAIN", 12}, {"BULK", 4}, {"JUNK", 1}, {"LITERAL", 6}, {"TRANSFER", 6}, {"LINKAGE_W", 4}, {"LINKAGE_S", 2}, {"CONVENTION", 4}, {"IDENT_W", 4},
      {"UNARY", 2}, {"BINARY", 2}, {"PRODUCT", 40}, {"SUM", 20}, {"FUNCTION", 40}, {"AS_TYPE", 40}, {"STRING", 2}, {"SUBREGION", 1}, {"AUTO", 2}, {"DECLTYPE", 2}}},
@@ -23,10 +23,10 @@ const Spec specs[] = {
     {{"REPEAT", 70}, {"AGAIN", 12}, {"BULK", 3}, {"JUNK", 1}, {"XLIST", 4}, {"XLIST_PUSH", 3}, {"DECL", 12}, {"FORALL", 6}, {"PRODUCT", 3}, {"POINTER", 3}, {"TOKEN", 0},
      {"ANNOTATION", 0}, {"COMMENT", 0}, {"PHANTOM", 1}, {"ECLIPSIS", 1}, {"IDENT_W", 40}, {"LABEL", 20}, {"SYMBOL", 20}, {"AS_TYPE", 8}}},
    {"scopes",           {   2,   1,   2,  4,   1,   1,  60,   0,  0,   0,   0,   1,   3,   0,   0,   0},
-    {{"ENUMERATOR", 8}, {"TEMPLATE_FAMILY", 3}, {"BASE", 6}, {"PLIST_ADD", 8}, {"MAPPING", 3}, {"LAMBDA", 2}, {"BLOCK", 3}, {"NEW_HANDLER", 3}, {"FUNCTION", 4}, {"FORALL", 4},
+    {{"ENUMERATOR", 8}, {"MEMBER_FLOOD", 1}, {"TEMPLATE_FAMILY", 3}, {"BASE", 6}, {"PLIST_ADD", 8}, {"MAPPING", 3}, {"LAMBDA", 2}, {"BLOCK", 3}, {"NEW_HANDLER", 3}, {"FUNCTION", 4}, {"FORALL", 4},
      {"PRODUCT", 3}, {"DECL_FILL", 6}, {"WHERE", 1}, {"ENUM", 4}, {"CLASS", 4}, {"IDENT_W", 1}, {"LITERAL", 1}}},
    {"regions",          {   1,   1,   1, 10,   1,   1,   4,   0,  0,   0,   0,   0,   0,   0,   0,   0},
-    {{"SUBREGION", 12}, {"BLOCK", 12}, {"NEW_HANDLER", 10}, {"MAPPING", 8}, {"LAMBDA", 6}, {"REQUIRES", 5}, {"WHERE", 5}, {"FORM", 6}, {"PLIST_ADD", 10},
+    {{"SUBREGION", 12}, {"MEMBER_FLOOD", 1}, {"BLOCK", 12}, {"NEW_HANDLER", 10}, {"MAPPING", 8}, {"LAMBDA", 6}, {"REQUIRES", 5}, {"WHERE", 5}, {"FORM", 6}, {"PLIST_ADD", 10},
      {"ENUMERATOR", 8}, {"BASE", 8}, {"NEW_UNIT", 1}, {"NEW_MODULE", 1}, {"MODULE_UNIT", 2}, {"ADD_STMT", 2}, {"ENUM", 8}, {"CLASS", 12}, {"CLOSURE", 6}}},
    {"substs",           {   2,   2,   2,  0,   4,   0,   0,   0,  0,   0,   0,   0,   1,   0,  30,   0},
     {{"MAPPING", 8}, {"LAMBDA", 2}, {"REQUIRES", 2}, {"PLIST_ADD", 25}, {"SUBST_BIND", 60}, {"INSTANTIATION", 3}}},
@@ -38,7 +38,7 @@ const Spec specs[] = {
     {{"PRINT", 22}, {"DEEP_BLOCK", 4}, {"LOCATE", 8}, {"UNARY", 16}, {"BINARY", 16}, {"DECL", 14}, {"LITERAL", 12}, {"ENCLOSURE", 8}, {"ADD_STMT", 8}, {"BLOCK", 6}, {"UDT_NAME", 5}}},
    // C05: everything, with growth of containers, of the unification tables and of the string arena between re-observations
    {"stability",        {   4,   4,   5,  3,   8,   6,   8,   9,  3,   6,   3,   1,   2,   6,   2,   0},
-    {{"REPEAT", 6}, {"AGAIN", 14}, {"TEMPLATE_FAMILY", 2}, {"JUNK", 1}, {"UNARY", 14}, {"BINARY", 14}, {"DECL", 18}, {"FORM", 10}, {"FORM_FILL", 6}, {"ATTR", 4}, {"TOKEN", 3}, {"LONGSTR", 5}, {"BULK", 2},
+    {{"REPEAT", 6}, {"AGAIN", 14}, {"MEMBER_FLOOD", 1}, {"TEMPLATE_FAMILY", 2}, {"JUNK", 1}, {"UNARY", 14}, {"BINARY", 14}, {"DECL", 18}, {"FORM", 10}, {"FORM_FILL", 6}, {"ATTR", 4}, {"TOKEN", 3}, {"LONGSTR", 5}, {"BULK", 2},
      {"STRING", 8}, {"IDENT_W", 8}, {"ENUMERATOR", 10}, {"PLIST_ADD", 10}, {"XLIST_PUSH", 8}, {"ADD_STMT", 8}, {"NEW_HANDLER", 5}, {"BASE", 6}}},
    // C15: everything, with more of what the derived operations are defined on (blocks with and without handlers, grown sequences, value types)
    {"derived",          {   4,   6,   6,  4,   8,   6,   8,   8,  3,   4,   2,   1,   2,   6,   2,   0},
